@@ -264,6 +264,22 @@ func checkC11(c c11Case) (ci caseInfo, err error) {
 				writes++
 			}
 			fill["added_later"] = 1
+		case "fillitem":
+			// a pooled item becomes the value of an item variable of another pooled template: shared from now on
+			tmplP := pick(op.A, func(p *pooled) bool { return p.item != nil && p.model != nil && len(itemVariablesOf(p.model)) > 0 })
+			valP := pick(op.B, func(p *pooled) bool { return p.item != nil && p.model != nil })
+			if tmplP == nil || valP == nil {
+				continue
+			}
+			names := itemVariablesOf(tmplP.model)
+			name := names[op.C%len(names)]
+			var res ast.ItemNode
+			if pn, _ := try(func() { res = tmplP.item.FillVariables(map[string]interface{}{name: valP.item}) }); pn {
+				continue // e.g. the value brings a name the template already has
+			}
+			nm, _ := substModel(tmplP.model, map[string]Assign{name: {Name: name, Kind: "item", Node: valP.model}})
+			derivations++
+			enter(&pooled{item: res, model: nm, from: "FillVariables with a pooled item as value"})
 		case "newmsg", "hsmsmsg":
 			p := pick(op.A, isItem)
 			if p == nil || op.Hdr == nil {
@@ -413,7 +429,7 @@ func genC11(t *rapid.T) c11Case {
 	c := c11Case{Variant: rapid.IntRange(0, 11).Draw(t, "variant")}
 	n := rapid.IntRange(2, 30).Draw(t, "nops")
 	nm := newNamer(true, false)
-	kinds := []string{"item", "item", "list", "fill", "fill", "newmsg", "hsmsmsg", "setwait", "setsession", "observe", "observe", "decode", "ctrl", "rsp"}
+	kinds := []string{"item", "item", "list", "fill", "fill", "fillitem", "newmsg", "hsmsmsg", "setwait", "setsession", "observe", "observe", "decode", "ctrl", "rsp"}
 	for i := 0; i < n; i++ {
 		op := c11Op{
 			Kind: rapid.SampledFrom(kinds).Draw(t, "op"),
@@ -442,4 +458,20 @@ func genC11(t *rapid.T) c11Case {
 
 func TestC11(t *testing.T) {
 	rapidProp(t, "C11", "c11", genC11, checkC11)
+}
+
+// itemVariablesOf lists the item variables (list-level names, not ellipses) of a model tree.
+func itemVariablesOf(n *model.Node) []string {
+	var out []string
+	n.Walk(func(x *model.Node) {
+		if x.Kind != model.L || x.Bulk != nil {
+			return
+		}
+		for _, c := range x.Children {
+			if c.Node == nil && !model.IsEllipsisName(c.Var) {
+				out = append(out, c.Var)
+			}
+		}
+	})
+	return out
 }
